@@ -1,5 +1,7 @@
 """C11 -- declared state limits are never violated in stochastic simulation.
 
+E  APA_JumpLimits: for arbitrary integer populations, limits and proposed steps, InLimits is inductive under the accept /
+   reject discipline (Apalache; negative control: upper limits ignored).
 E  MC_Jump instances: InLimits, RejectedStepChangesNothing over lower / upper / two-sided / absent limits.
 G  the complete case table of the limit test (limit kind x new value below / at / inside / at / above, two
    states) replayed on stochastic_simulation._checkJump.
@@ -46,6 +48,15 @@ def case_table(rep):
 def run(rep, tier, seed):
     quick = tier == "quick"
     jc.run_mc_jump(rep, tier, only=("sirb_tau", "bd2_tau", "mt_exact", "one_tau"))
+    # unbounded populations, arbitrary limits and proposed steps: InLimits is inductive (Apalache)
+    from engine import tlc, report
+    apa = {}
+    for label, cinit, want in (("step", "CInit", "NoError"), ("negative control (upper limits ignored)", "CInitNoHi", "Error")):
+        outcome, wall, tail = tlc.apalache("APA_JumpLimits", "IndInit", "InLimits", 1, cinit=cinit)
+        apa[label] = {"outcome": outcome, "wall_s": round(wall, 1)}
+        if outcome != want:
+            raise report.Machinery("Apalache APA_JumpLimits (%s): expected %s, got %s\n%s" % (label, want, outcome, tail))
+    rep.cov["apalache_inductive_invariant"] = apa
     case_table(rep)
     n = 48 if quick else 900
     jobs = [(seed % 100000 + 11, i, {"checkdraws": False, "max_steps": 120 if quick else 250}) for i in range(n)]
